@@ -6,6 +6,7 @@ violation."""
 
 import json
 import os
+import random
 import re
 import shutil
 import struct
@@ -163,6 +164,16 @@ def stream_mutants(rng, base, key, limit, rot=0):
                 continue
             e = list(evs); e[k] = (c, m, p[:4].ljust(4, b"\0") + b"L" * ln + b"\0", True)
             put("labellen:%s=%d" % (m, ln), obs.encode_stream(e))
+    # well-formed events in an order no runtime produces: a copy of one task or thread-state event is
+    # inserted after another one, earlier or later in the stream (resuming a task buried under another,
+    # ending one twice, executing what is paused ...); every byte is valid, only the history is not
+    te = [k for k, e in enumerate(evs) if len(e[1]) == 3 and (e[1][1] == "T" or e[1][:2] == "OH") and not e[3]]
+    pairs = [(a, b) for a in te for b in te if a != b]
+    rng2 = random.Random(rot * 7919 + len(evs))
+    for (a, b) in (pairs if not limit else rng2.sample(pairs, min(len(pairs), 60))):
+        e = list(evs)
+        e.insert(b + 1, (evs[b][0], evs[a][1], evs[a][2], False))
+        put("echo:%s-after-%s" % (evs[a][1], evs[b][1]), obs.encode_stream(e))
     return out + muts
 
 
@@ -424,6 +435,51 @@ def run_sortring(i):
         shutil.rmtree(wd, ignore_errors=True)
 
 
+def run_taskword(arg):
+    """One thread, two tasks, a word over execute/pause/resume/end: any order at all, legal or not."""
+    mc, word = arg
+    chk, build = _CTX["chk"], _CTX["asan"]
+    u = obs.u32
+    desc = tracegen.simple_system(nthreads=1, ncpus=1)
+    key = tracegen.all_keys(desc)[0]
+    evs = [("OHx", obs.i32(0, key[2], 0), False), (mc + "Yc", u(5) + b"ty\0", True),
+           (mc + "Tc", u(1, 5), False), (mc + "Tc", u(2, 5), False)]
+    for (op, t) in word:
+        evs.append((mc + "T" + op, u(t, 0) if mc == "V" else u(t), False))
+    evs.append(("OHe", b"", False))
+    hist = [(9000 + 2 * n, key, m, p, j) for n, (m, p, j) in enumerate(evs)]
+    wd = os.path.join(chk.scratch, "tw-%d" % os.getpid())
+    try:
+        shutil.rmtree(wd, ignore_errors=True)
+        tracegen.write_trace(wd, desc, hist, require=histgen.require_of(mc))
+        r = emu.run_tool(build, "ovniemu", [wd], timeout=20, env=ENV)
+        v = classify("ovniemu", r)
+        return {"arg": arg, "viol": v, "accepted": (not v) and r.rc == 0, "brief": r.brief() if v else None}
+    finally:
+        shutil.rmtree(wd, ignore_errors=True)
+
+
+def task_words(chk, depth, cap):
+    """Breadth first over the words the emulator accepts: every accepted word is extended by each of the
+    eight symbols (a rejected word ends there).  Returns (runs, violations)."""
+    n = 0
+    viols = []
+    for mc in "V6":
+        frontier = [[]]
+        for d in range(depth):
+            cand = [(mc, w + [(op, t)]) for w in frontier for op in "xpre" for t in (1, 2)]
+            if len(cand) > cap:
+                cand = chk.rng(d, "taskwords" + mc).sample(cand, cap)
+            frontier = []
+            for res in core.pmap(run_taskword, cand, chunksize=8):
+                n += 1
+                if res["viol"]:
+                    viols.append((res["viol"], res["arg"], res["brief"]))
+                elif res["accepted"]:
+                    frontier.append(res["arg"][1])
+    return n, viols
+
+
 def main(argv):
     chk = core.Check("C19", "exploration", argv)
     asan = chk.build("asan", TOOLS)
@@ -447,10 +503,16 @@ def main(argv):
             for key, what, o in r["viol"]:
                 chk.report(key, what, o)
         kinds["sort:small-ring"] = nsort
+        ntw, tv = task_words(chk, 5 if quick else 7, 400 if quick else 4000)
+        for (key, what), (mc, word), brief in tv:
+            wtxt = " ".join("%sT%s(%d)" % (mc, op, t) for op, t in word)
+            chk.report(key + ":task-order", "%s on the event order %s" % (what, wtxt), {"mc": mc, "word": word, "obs": brief})
+        kinds["task-order-words"] = ntw
+        nsort += ntw
     cov = {"evaluations": n * len(TOOLS) + nsort, "distinct_nontrivial": len(kinds),
            "rule": "structure-aware mutants of valid multi-model traces (flags nibbles, jumbo size fields incl. values "
                    ">= 2^31, truncation at every offset of the last two events, payload shapes, jumbo data without NUL, "
-                   "MCV bytes, string arguments of 950-1030 characters, extreme clocks, page-multiple file sizes, byte noise; every JSON type at every metadata "
+                   "MCV bytes, string arguments of 950-1030 characters, copies of task / thread-state events inserted out of order, every order of execute/pause/resume/end of two tasks that extends an accepted word (to length 5 / 7), extreme clocks, page-multiple file sizes, byte noise; every JSON type at every metadata "
                    "position, every metadata string grown to lengths 2^k-1, 2^k, 2^k+1 (k = 4..12), loom_cpus shapes, mark definitions, loom names, require dictionaries, malformed JSON, "
                    "clock-offset tables), each run through ovniemu/ovnidump/ovnitop/ovnisort built with ASan+UBSan and "
                    "the exact-size heap stream buffer. evaluations = tool runs; distinct_nontrivial = mutation kinds",
